@@ -184,6 +184,8 @@ class FloatNum:
     @staticmethod
     def const(c):
         if isinstance(c, Fraction):
+            if c.denominator == 1:
+                return E(c.numerator)
             return E(c.numerator) / E(c.denominator)
         return E(c)
 
@@ -222,6 +224,30 @@ class FloatNum:
         if a.v - 4 * a.e <= 1e-9:
             raise OutOfDomain
         return FloatNum.fn("exp", b * FloatNum.fn("log", a))
+
+
+def _exact_int(x):
+    """the integer `x` is exactly (a Fraction with denominator 1, an error-free float value), else None"""
+    if isinstance(x, Fraction):
+        return int(x) if x.denominator == 1 else None
+    if isinstance(x, E):
+        return int(x.v) if x.e == 0 and float(x.v).is_integer() else None
+    return None
+
+
+def _exact_zero(x):
+    if isinstance(x, Fraction):
+        return x == 0
+    if isinstance(x, E):
+        return x.v == 0 and x.e == 0
+    return False
+
+
+def _mentions(e, wrt):
+    """does the leaf `wrt` occur anywhere in `e` (conditions of `If` included)?"""
+    if wrt is None:
+        return False
+    return any(leaf_key(s) == wrt for s in subterms(e))
 
 
 class D:
@@ -288,6 +314,14 @@ def dual(e, env, wrt, N, allow_bare_log=False):
                 return D(N.const(1), N.const(0))
             return D(N.ipow(a.v, ex), N.const(ex) * N.ipow(a.v, ex - 1) * a.d)
         a, b = ev(e.base), ev(ex)
+        k = _exact_int(b.v)
+        if k is not None and 1 <= k <= 64 and _exact_zero(b.d) and not _mentions(ex, wrt):
+            # the exponent does not depend on the variable — SYNTACTICALLY: the leaf does not occur
+            # in it at all (a vanishing derivative at this point only, or an `If` whose other branch
+            # mentions the variable, is not enough: no rule-based differentiator can know the
+            # point) — and is a positive integer at this point: a ** k is the k-fold product,
+            # differentiable for every value of the base (0 included)
+            return D(N.ipow(a.v, k), N.const(k) * N.ipow(a.v, k - 1) * a.d)
         v = N.powgen(a.v, b.v)
         # (a^b)' = a^b (b' log a + b a'/a)
         return D(v, v * (b.d * N.fn("log", a.v) + N.div(b.v * a.d, a.v)))
